@@ -31,6 +31,10 @@ CHECKS = {
             "boundary-table enumeration + Hypothesis value generation over all 112 concrete primitive classes, differential against an independent clause-20.2 reference encoder/decoder plus library round trip",
             "For every concrete Atomic subclass, values at every length boundary, every enumeration name and number, every bit-string length 0..64, IEEE bit patterns, boundary object identifiers and Hypothesis-generated values are encoded in both tagging modes (all 255 context numbers for one value per class); the octets must equal an independent canonical encoder, decode back to an equal value through the library and through the reference decoder; unrepresentable inputs must be refused or round-trip exactly.",
             "Trusts bpverif/ref/asn1.py and struct's IEEE float32 rounding as the definition of the Real domain; inputs the constructors alias or mask by documented design (Date year 2155, ObjectIdentifier ints >= 2^32, empty name lists) are excluded."),
+    "C14": ("exploration",
+            "bounded exhaustive operation sequences + Hypothesis long histories against a reference scheduler model, on the real TaskManager under a virtual clock, through both core.run_once() and core.run()",
+            "All install/suspend/resume/re-install/advance sequences up to a length bound over up to 4 one-shot tasks with colliding times, plus Hypothesis sequences of up to 200 operations, are applied to the real TaskManager (virtual clock) and to a reference scheduler; the firing logs (task, time) must be identical. Recurring tasks are checked slot by slot against exact rational slots on an interval x offset x install-instant grid; every raising subset x every deferring subset of deferred batches (4096 shapes) and raising tasks among due tasks are enumerated under both event loops.",
+            "Only bacpypes.task._time is rebound (harness monkeypatch); the real heap, run_once and run loops execute. Sequence length bounds are below the statement's 7 for 4 tasks (full alphabet <=3 quick / <=4 thorough; length 7 only on a 2-task reduced alphabet in thorough). Per-case 5 s real-time watchdog reports a loop that never returns."),
 }
 
 NOT_YET = {}
